@@ -30,6 +30,14 @@ fn main() {
         engines::e2e::debug_resource(&args[1]);
         return;
     }
+    if id == "dbg-ext" {
+        engines::ext::debug_dump(&args[1], &args[2]);
+        return;
+    }
+    if id == "dbg-sched" {
+        engines::ext::debug_schedule(&args[1..]);
+        return;
+    }
     if id == "dbg-e2e" {
         engines::e2e::debug_case(&args[1]);
         return;
